@@ -137,9 +137,9 @@ Proof.
 Qed.
 
 Lemma cs6_const sc c : wf6 (WConst c) sc -> compile_static6 sc (WConst c).
-Proof. intros [Hs Hd]. apply (cs6_datum sc (WConst c) c); [intros; apply compile_const_eq; exact Hs|exact Hd]. Qed.
+Proof. intros [Hs Hd]. apply (cs6_datum sc (WConst c) c); [intros; apply compile_const_eq; [exact Hs|exact Hd]|exact Hd]. Qed.
 Lemma cs6_quote sc d : wf6 (WQuote d) sc -> compile_static6 sc (WQuote d).
-Proof. intros Hd. apply (cs6_datum sc (WQuote d) d); [intros; apply compile_quote_form|exact Hd]. Qed.
+Proof. intros Hd. apply (cs6_datum sc (WQuote d) d); [intros; apply compile_quote_form; exact Hd|exact Hd]. Qed.
 
 (* ============================================================ variables *)
 Lemma cs6_var sc x : wf6 (WVar x) sc -> compile_static6 sc (WVar x).
